@@ -137,6 +137,7 @@ class TypeState:
         self.ops = OpLog()     # (fn short, op, side, where, pre-states), one entry per source site
         self.calls = []        # (caller Fn, callee Fn, {callee entity key: set of sides}, where)
         self.contexts = 0
+        self.trace = None
         self.stack = []
         self.consts_stack = []
         self.alias_stack = []    # per analysed function: {param index: entity key} for parameters that ARE an entity's side
@@ -214,7 +215,7 @@ class TypeState:
         """entry: dict key -> frozenset(tuples) for parameter-rooted entities.
         returns dict(exit=dict key->frozenset, ret=expr)"""
         ck = (fn.path, mode, tuple(sorted((repr(k), tuple(sorted(v, key=repr))) for k, v in entry.items())), tuple(consts),
-              tuple(sorted((j, repr(k)) for j, k in (aliases or {}).items())), "view" if q is not None else "")
+              tuple(sorted((j, repr(k)) for j, k in (aliases or {}).items())), id(q) if q is not None else "")
         if ck in self.memo:
             return self.memo[ck]
         if fn.path in self.stack:
@@ -247,6 +248,8 @@ class TypeState:
             t = blk.term
             if t is None:
                 continue
+            if self.trace is not None:
+                self.trace.append((b, {render(k): sorted({(t_[0], t_[1], t_[5]) for t_ in v}) for k, v in st.items()}))
             if t.k == "return":
                 for k, v in st.items():
                     OUT_exit[k] = OUT_exit.get(k, frozenset()) | v
@@ -293,10 +296,41 @@ class TypeState:
         return res
 
     # ------------------------------------------------------------------ refinement
+    @staticmethod
+    def body_is_switch(q, b):
+        t = q.body.blocks[b].term
+        return t is not None and t.k == "switch"
+
     def refine(self, q, b, s, st, mode):
-        atoms = q.cfg.edge_atoms(b, s)
+        atoms = list(q.cfg.edge_atoms(b, s))
+        # a switch on an enum value that was built under known conditions (`match OrderKind::of(&order) { .. }`) inherits
+        # them; only tests of the IMMUTABLE attributes (kind via the price sentinel, side) are taken over - a status or volume
+        # test made when the value was built may be stale by now
+        for a in q.cfg.correlated_atoms(b, s):
+            if a[0] == "variant" and all(n in SIDES for n in a[2]):
+                atoms.append(a)
+            elif a[0] == "cmp" and a[1] in ("eq", "ne") and a[2][0] == "field" and a[2][2] == "price":
+                atoms.append(a)
+            elif a[0] == "bool" and a[1][0] == "phi":
+                atoms.append(a)
+        # a test of mutable state (volume, status) that still held where the value was built still holds here if nothing was
+        # written in between
+        site = q.cfg.correlated_site(b, s) if self.body_is_switch(q, b) else None
+        if site is not None and q.cfg.pure_path(site, b, include_first=True):
+            for a in q.cfg.fresh_atoms(site):
+                if a[0] == "cmp" and a[2][0] == "field" and a[2][2] in ("vol", "status") and a not in atoms:
+                    atoms.append(a)
         st = dict(st)
         for a in atoms:
+            if a[0] == "cmp" and a[1] in ("eq", "ne") and a[2][0] == "field" and a[2][2] == "price" and a[3][0] == "phi" \
+                    and all(x[0] == "const" and x[3] in (0, 0xFFFFFFFF) for x in a[3][1]) and len(a[3][1]) == 2:
+                # `price == match side { Bid => MAX, Ask => 0 }`: the order's own market sentinel (limit prices are strictly inside)
+                k = self.canon_key(st, a[2][1])
+                cur = self.get(q, st, k, mode)
+                nv = frozenset(t for t in cur if (t[5] == "market") == (a[1] == "eq"))
+                if not nv:
+                    return None
+                st[k] = nv
             if a[0] == "cmp" and a[1] in ("eq", "ne"):
                 lhs, rhs = a[2], a[3]
                 sv = variant_name(rhs) if rhs[0] == "agg" else None
@@ -520,6 +554,10 @@ class TypeState:
             n = variant_name(v[3][0])
             if n is None and v[3][0][0] == "param" and self.alias_stack and v[3][0][1] in self.alias_stack[-1]:
                 return ("alias", self.alias_stack[-1][v[3][0][1]])
+            if n is None and v[3][0][0] == "field" and v[3][0][2] == "0" and v[3][0][1][0] == "field" and v[3][0][1][2] == "key":
+                return ("alias", ("field", v[3][0][1][1], "order", ""))    # (<entry>.key.0, ..): the stored key's own side component is kept
+            if n is None and v[3][0][0] == "field" and v[3][0][2] == "side":
+                return ("alias", v[3][0][1])       # (<order>.side, ..): judged against the entity the key is written to
             return n if n in SIDES else None
         if v[0] == "call":
             f = self.m.prog.fn_by_short(v[1])
@@ -585,8 +623,11 @@ class TypeState:
             if X is not None and same(key_a, ("field", X, "key", "")):
                 key_ok = True
             else:
-                for w in q.writes():
-                    if w.b == c.b and w.addr[0] == "field" and w.addr[2] == "key" and X is not None and same(w.addr[1], X) and w.val == key_a:
+                # .. or the value written to the stored key earlier on every path here, with no other key write in between
+                kws = [w for w in q.writes() if w.addr[0] == "field" and w.addr[2] == "key" and X is not None and same(w.addr[1], X)]
+                for w in kws:
+                    if w.val == key_a and (w.b == c.b or q.body.dominates(w.b, c.b)) and not any(
+                            w2 is not w and w2.b != w.b and q.cfg.can_reach(w.b, w2.b) and q.cfg.can_reach(w2.b, c.b) for w2 in kws):
                         key_ok = True
             if not key_ok:
                 self.viol("insert", "key-arg|" + q.fn.short(), where, "order filed under a key (%s) that is not the key stored with the order" % render(key_a))
